@@ -581,7 +581,20 @@ def _common(repo, col):
                     if len(parts) == 1 and isinstance(parts[0], str):
                         seen[src.name] = parts[0]
 
+    def rename_facts(t, binding):
+        """`X.rename(columns={old: new})` with X derived from one of the node-table parameters"""
+        t = idx.subst(t, binding) if binding else t
+        for x in t.walk():
+            if x.op == "mcall" and x.name == "rename" and "columns" in x.kw and x.kw["columns"].op == "dict":
+                src = T.find(x.args[0], lambda y: y.op == "param" and y.name in fi.params)
+                for kv in x.kw["columns"].args:
+                    parts = _str_parts(kv.args[1])
+                    if src is not None and len(parts) == 1 and isinstance(parts[0], str):
+                        seen[src.name] = parts[0]
+
     facts(ex, None)
+    for r_ in list(ex.returns) + [s_.value for s_ in ex.stores]:
+        rename_facts(r_, None)
     # a local helper that is applied to pre_nodes and to post_nodes: one set of facts per call site
     for cnode in ex.calls:
         if isinstance(cnode.func, ast.Name) and cnode.func.id in ex.nested:
@@ -590,6 +603,8 @@ def _common(repo, col):
             m = idx._bind(ne.fi.node, list(t.args), t.kw)
             if m is not None:
                 facts(ne, m)
+                for r_ in ne.returns:
+                    rename_facts(r_, m)
     ok = seen.get(fi.params[1]) == "pre_global_comp_index" and seen.get(fi.params[2]) == "post_global_comp_index"
     col.check(ok, "R-C20-roles", fi, "_append_multiple_synapses: pre_nodes feed the pre column, post_nodes the post column",
               f"{seen}", f"column naming is {seen}", node=fi.node)
